@@ -418,6 +418,9 @@ def specParseLines (k : PKind) (d : Bytes) : Out :=
       | some cs => #[("spec.tok", "accept:" ++ String.intercalate ";" (cs.map refChunkStr))]
       | none => #[("spec.tok", "reject")]
   | .compound =>
+    -- the reference tiling measures the remaining bytes at every tile (quadratic): informational
+    -- line, left out for very long inputs
+    if d.length > 70000 then #[] else
     match Spec.tiling d with
     | some ts => #[("spec.tiles", if d.isEmpty then "none" else listStr (ts.map (fun t => toString t.length)))]
     | none => #[("spec.tiles", "none")]
